@@ -569,7 +569,6 @@ def _r3(ctx: Ctx, m: pf.Module, pw: PyWriter, pr: PyReader, sc: ScalaCall):
                 vl = [pf.nsrc(x) for x in asn.value.elts]
                 if tg == list(reversed(vl)) and set(tg) == {l, r}:
                     # `if hi < lo: lo, hi = hi, lo`  sorts ascending when the test is  second < first / first > second
-                    first_def = pf.single_def(init, tg[0]) if False else None
                     swap = (isinstance(n.test.ops[0], ast.Lt) and (l, r) == (tg[1], tg[0])) or (isinstance(n.test.ops[0], ast.Gt) and (l, r) == (tg[0], tg[1]))
     gt_fn = pw.nested[idx_name]
     has_assert = any(isinstance(s, ast.Assert) for s in gt_fn.body)
